@@ -92,10 +92,13 @@ WitnessRngs ==
                <<170, 170, 170, 170, 170, 170, 170, 170, 170, 170, 170, 170, 170, 170, 170, 170, 170, 170, 170, 170, 170, 170, 170, 170, 0, 0, 0, 0, 119, 87, 50, 23>>}}
 WitnessParams ==
     {[SP(su, 0, OneInfo, OnePair(0)) EXCEPT !.rng = r] : su \in {x \in Suites : x[1] = KEM_P256}, r \in WitnessRngs}
+ShortPair == IF Vals = "small" THEN <<Lit(<<97>>), Lit(<<97, 0>>)>> ELSE <<Leaf("pska", 1), Leaf("pskidb", 32)>>
 BaseSenderParams ==
     IF Shape = "sweep" THEN SweepParams ELSE
     IF Shape = "one"
     THEN {SP(su, mo, OneInfo, OnePair(mo)) : su \in Suites, mo \in ModeSet}
+         \* ... and a SHORT psk / psk_id (below every hash block size: zero-padding style collisions only show there)
+         \cup {SP(su, mo, OneInfo, ShortPair) : su \in Suites, mo \in ModeSet \cap PskModes}
          \* deviation D2: a PSK mode with an EMPTY bundle is accepted by the library (and is not Base / Auth)
          \cup {SP(su, mo, OneInfo, <<<<>>, <<>>>>) : su \in Suites, mo \in ModeSet \cap PskModes}
     ELSE UNION {{SP(su, mo, inf, pp) : su \in Suites, inf \in InfoVals, pp \in PairsFor(mo)} : mo \in ModeSet}
